@@ -24,6 +24,7 @@ SIMPLE = {
     'things:LeafCls': ('x', ['y', 'child', 'extra']),
     'things:Other': ('x', ['y', 'child']),
     'things:ident': ('x', []),
+    'things:annotated_fn': ('x', ['y', 'child']),
 }
 
 _FACTORIES = {'list': list, 'int': int, 'make_list': things.make_list, None: None}
@@ -112,8 +113,9 @@ def dag(draw, *, max_nodes=12, leaf_profile='plain', kinds=None, p_alias=0.55,
       node = {'k': 'B', 'bt': draw(st.sampled_from(list(bts))), 'fn': {'kind': 'sym', 'name': fn},
               'pos': [], 'kw': kw, 'edits': []}
       if tags and draw(st.floats(0, 1)) < 0.4:
-        node['tags'] = [[draw(st.sampled_from(list(kw) or [uidp])),
-                         draw(st.sampled_from(['TagA', 'TagB', 'TagC', 'TagX']))]]
+        node['tags'] = [[draw(st.sampled_from([uidp] + others)),
+                         draw(st.sampled_from(['TagA', 'TagB', 'TagC', 'TagX']))]
+                        for _ in range(draw(st.integers(1, 2)))]
     elif kind == 'Bpos':
       pos = [ref() for _ in range(draw(st.integers(1, 4)))]
       kw = {}
@@ -126,6 +128,18 @@ def dag(draw, *, max_nodes=12, leaf_profile='plain', kinds=None, p_alias=0.55,
       if tags and draw(st.floats(0, 1)) < 0.5:
         key = draw(st.sampled_from(['a', 'b', 'k'] + list(range(len(pos)))))
         node['tags'] = [[key, draw(st.sampled_from(['TagA', 'TagB', 'TagC', 'TagX']))]]
+    elif kind == 'Bann':
+      pos = [ref() for _ in range(draw(st.integers(0, 3)))]
+      kw = {}
+      if draw(st.booleans()):
+        kw['k'] = ref()
+      if draw(st.booleans()):
+        kw['z0'] = ref()
+      node = {'k': 'B', 'bt': draw(st.sampled_from(list(bts))),
+              'fn': {'kind': 'sym', 'name': 'things:annotated_po'}, 'pos': pos, 'kw': kw, 'edits': []}
+      if tags and draw(st.booleans()):
+        node['tags'] = [[draw(st.sampled_from(['a', 'k', 'z0', 0, 1, 2, 3])),
+                         draw(st.sampled_from(['TagA', 'TagB', 'TagC', 'TagX']))]]
     elif kind == 'Bmut':
       kw = {'a': {'leaf': {'$sym': 'things:_MUTABLE_DEFAULT'}}}
       if draw(st.booleans()):
